@@ -96,11 +96,30 @@ def body_options(H, case, fs):
         tp = H.cplx("tpc", lo=-2.0, hi=2.0)
     opts = SolverOptions(solve_time=1.0, dt_init=dt_init, dt_max=dt_max, adaptive_time_step_multiplier=mult, screening_step_drag=drag,
                          screening_step_size=alpha, screening_tolerance=tol, terminal_psi=tp, sparse_solver="superlu")
+    import dataclasses
+
+    before = dataclasses.asdict(opts)
+    adaptive_cfg = H.choice("adaptive", [True, False])
+    opts.adaptive = adaptive_cfg
+    before["adaptive"] = adaptive_cfg
     try:
         opts.validate()
         raised = False
     except SolverOptionsError:
         raised = True
+    if not raised:
+        after = dataclasses.asdict(opts)
+        for key, val in before.items():
+            if key == "sparse_solver":
+                continue
+            a, b = after[key], val
+            if isinstance(a, Sc) and isinstance(b, Sc):
+                same = str(a.re) == str(b.re) and str(a.im) == str(b.im)
+            elif isinstance(a, Sc) or isinstance(b, Sc):
+                same = False
+            else:
+                same = (a is b) or (type(a) == type(b) and a == b)
+            H.prove(f"validate() leaves option {key} as configured", bool(same))
     # ---- oracle: the documented constraint set ---------------------------------------------------
     def land(*xs):
         out = True
